@@ -6,7 +6,6 @@ package c15
 
 import (
 	"fmt"
-	"os"
 	"strings"
 	"sync"
 	"testing"
@@ -548,5 +547,5 @@ func TestCheck(t *testing.T) {
 	h.Parallel(nf, 16, func(i int) { backlogResume(r, i) })
 	r.Count("backlog_resume_runs", int64(nf))
 	clientPart(r)
-	os.Exit(r.Finish(50))
+	h.Exit(r.Finish(50))
 }
